@@ -3,7 +3,7 @@ from __future__ import annotations
 import ast
 
 from ..rules.axis import AxisEval, Contract
-from ..rules.common import fwd_same_name, sym_operands, where, norm, calls_to, bound_args
+from ..rules.common import Inliner, fwd_same_name, sym_operands, where, norm, calls_to, bound_args
 from .c01 import _eq_const
 
 EXPLANATION = (
@@ -49,6 +49,7 @@ DISPATCH = {
 
 
 def run(ctx, obs):
+    putmask_values(ctx, obs)
     isotropic_fast_path(ctx, obs)
     # Kendall tau-a: the second sort (by x) must keep the y-order inside x-ties, which the first sort established - both go
     # through _sort_and_rank, so its argsort has to be a stable one
@@ -202,3 +203,35 @@ def isotropic_fast_path(ctx, obs, rule='ISO'):
             obs.bad(rule, q, con, f'`{norm(c)[:60]}` is reached for every 1-D sigma_k (the dispatch only tests `is None` / `.ndim`): for '
                     f'unequal variances the result differs from r1\' V^-1 r2 / sqrt(r1\' V^-1 r1 r2\' V^-1 r2) and from the result for '
                     f'the same covariance given as a diagonal matrix', where(prog, f, c))
+
+
+def putmask_values(ctx, obs, rule='API', prefix=None):
+    """np.putmask(a, mask, values) takes values[n] for the n-th FLAT position of `a` (cycling when values is shorter), not the k-th
+    value for the k-th True of the mask - that is np.place / boolean assignment.  Handing it a compacted array (one computed
+    from boolean-selected rows) misplaces the results whenever the mask is not all-True.  Sweep over rdm.compare."""
+    prog = ctx.prog
+    n = 0
+    for q, f in sorted(prog.functions.items()):
+        if not q.startswith(prefix or M):
+            continue
+        calls = [c for c in ast.walk(f.node) if isinstance(c, ast.Call) and isinstance(c.func, ast.Attribute) and c.func.attr == 'putmask'
+                 and len(c.args) >= 3]
+        if not calls:
+            continue
+        r = ctx.dep.result(q)
+        inl = Inliner(r, None, tuple(f.params))
+        for c in calls:
+            n += 1
+            v = inl.inline(c.args[2])
+            compacted = None
+            for s in ast.walk(v):
+                if isinstance(s, ast.Subscript):
+                    idx = s.slice.elts[0] if isinstance(s.slice, ast.Tuple) and s.slice.elts else s.slice
+                    if isinstance(idx, ast.Compare) or (isinstance(idx, ast.UnaryOp) and isinstance(idx.op, ast.Invert)):
+                        compacted = s
+                        break
+            obs.check(compacted is None, rule, q, f'`{norm(c)[:60]}`: the values handed to putmask are laid out like the target',
+                      f'the values derive from `{ast.unparse(compacted)[:60] if compacted is not None else ""}` (rows selected by a boolean mask): '
+                      f'putmask reads values by flat position, so entries land in the wrong (i, j) cells when a vector has zero norm',
+                      '', where(prog, f, c))
+    obs.analysed['putmask_calls'] = n
